@@ -7,6 +7,31 @@ from ..runner import Prop
 from .c08 import C08
 
 
+def strip_l(b):
+    i = b.find(" L=")
+    return b[:i] if i >= 0 else b
+
+
+def handle_section_failure(case, lines):
+    """thread-safe form with a lock trace: in the poll of ONE task everything after the first
+    acquisition (the handle's mutex, `Remote::poll`) must happen with that cell held."""
+    from .c10 import parse_tokens
+    if not case.field("locktrace"):
+        return None
+    for k, e in enumerate(case.events):
+        b = lines.get(k) or ""
+        if e[0] == "poll" and " L=" in b:
+            toks = parse_tokens(b)
+            if toks and toks[0][0] == "a":
+                h = toks[0][1]
+                for kind, n, held in toks[1:]:
+                    if h not in held:
+                        return {"kind": "task-body-outside-handle-section", "event": k,
+                                "detail": f"poll of one task: {b[b.find(' L='):]} — handle cell {h} "
+                                          f"is not held at {kind}{n}{held}"}
+    return None
+
+
 class C19(Prop):
     pid = "C19"
     lean_module = "RxModel.Props.C19"
@@ -32,8 +57,11 @@ class C19(Prop):
             pipe = tg.chain(rng, src, ["delay", "delaysub", "subscribeon", "observeon", "debounce", "buftime"], depth, p_sync=0.15)
             mode = "mixed" if i % 3 else "fifo"
             evs = tg.events(rng, rng.randint(3, 14), hot=(src[0] == "hot"), mode=mode, unsub_p=0.12)
-            out.append(Case("time", rng.choice(["local", "threads"]), [("pipe", [pipe])], evs,
-                            {"kind": mode}))
+            fl = rng.choice(["local", "threads"])
+            # thread-safe form: record the lock trace (hook H2) — the task body must run inside the
+            # section of its handle's mutex, which is what makes unsubscribe() wait for it
+            fields = ([("locktrace", ["1"])] if fl == "threads" else []) + [("pipe", [pipe])]
+            out.append(Case("time", fl, fields, evs, {"kind": mode}))
         # cancellation at every phase of a single delayed one-shot / repeating task (exhaustive small)
         for src in (["timer", "7", "2"], ["interval", "2"], ["delaysub", "2", ["hot", "0"]],
                     ["delay", "2", ["hot", "0"]]):
@@ -46,9 +74,16 @@ class C19(Prop):
                 out.append(Case("time", "local", [("pipe", [src])], evs, {"kind": "cancel-phase"}))
         return out
 
+    def project(self, body):
+        from .c10 import strip_lock
+        return strip_lock(body)
+
     def oracle(self, case, lines, model_lines=None):
         pipe = case.field("pipe")[0]
         unsub = False
+        f = handle_section_failure(case, lines)
+        if f:
+            return f
         for k, e in enumerate(case.events):
             b = lines.get(k)
             if b is None:
@@ -57,7 +92,7 @@ class C19(Prop):
                 return {"kind": "panic", "event": k, "detail": b}
             if not b.startswith("o="):
                 continue
-            outs, kv = tg.parse_suffix(b)
+            outs, kv = tg.parse_suffix(strip_l(b))
             if e[0] == "unsub":
                 unsub = True
                 if outs:
